@@ -3,6 +3,7 @@ import Victron.Model.Tables
 import Victron.Model.Select
 import Victron.Model.Frame
 import Victron.Gen.Tables
+import Victron.Model.Api
 /- Line-protocol driver for the Tables cone (C12–C17): lookups over the regenerated tables and the list algebra. -/
 open Victron
 
@@ -59,6 +60,54 @@ def regOp (rl : RegList) (op : String) : Option RegList :=
   | ["f", p] => (pred p).map rl.filter
   | ["n", names] => some (rl.filterByName (if names = "" then [] else names.splitOn ","))
   | _ => none
+
+/-! ### API layer (C09–C11) -/
+
+def parseErr (s : String) : Err :=
+  match s with
+  | "unknown-id" => .unknownId | "not-supported" => .notSupported | "parameter-error" => .parameterError
+  | "invalid-enum" => .invalidEnum | "ctx-done" => .ctxDone | "too-short" => .tooShort
+  | "unsupported-type" => .unsupportedType | _ => .other
+
+/-- transport outcome token: "ok:<hex>" | "err:<kind>" -/
+def parseOutcome (s : String) : Option (R Bytes) :=
+  match s.splitOn ":" with
+  | ["ok", h] => (if h = "" then some [] else parseHex h).map R.ok
+  | ["err", k] => some (.err (parseErr k))
+  | _ => none
+
+def renderVal : Val → String
+  | .num raw factor offset => s!"F({raw}*1/{factor}+{offset})"
+  | .text bs => hexStr bs
+  | .enum i n => s!"{i}:{hexS n}"
+  | .fields fs comma => String.intercalate "," (fs.map (fun f => s!"{f.1}:{b01 f.2}")) ++ "|" ++ hexS comma
+
+def renderApiR : ApiR → String
+  | .ok v => "ok:" ++ renderVal v
+  | .err e name => s!"err:{e.toString}@{name}"
+  | .panic => "PANIC"
+
+def getOf (m : List (Nat × R Bytes)) (addr : Nat) : R Bytes :=
+  match m.find? (·.1 == addr) with
+  | some (_, r) => r
+  | none => .err .other      -- the device is silent for this register
+
+def parseMap (s : String) : Option (List (Nat × R Bytes)) :=
+  (splitList s ",").mapM (fun kv => match kv.splitOn "=" with
+    | [a, o] => do let a ← a.toNat?; let o ← parseOutcome o; pure (a, o)
+    | _ => none)
+
+def parseListSpec (s : String) : Option RegList :=
+  if s.startsWith "P" then (s.drop 1).toNat?.map (fun id => (sel id).1)
+  else match s.splitOn ";" with
+    | [n, t, e, f] => do
+      let g := fun (x : String) => (splitList x ",").mapM (fun i => i.toNat?.bind (fun i => pool[i]?))
+      pure ⟨← g n, ← g t, ← g e, ← g f⟩
+    | _ => none
+
+def renderEv : Ev → String
+  | .read a => s!"R{a}"
+  | .cb n v => s!"C{n}={renderVal v}"
 
 def fnv64 (bs : List Nat) : Nat :=
   bs.foldl (fun h b => ((h ^^^ b) * 1099511628211) % 18446744073709551616) 14695981039346656037
@@ -121,6 +170,36 @@ def step (line : String) : String :=
       | none => "same"
       | some i => s!"differs:{i}"
     | _ => "bad-op"
+  | [k, idx, outcome] =>
+    if k = "RN" ∨ k = "RT" ∨ k = "RE" ∨ k = "RF" then
+      match idx.toNat?.bind (fun i => pool[i]?), parseOutcome outcome with
+      | some r, some o =>
+        let tr : Transport := ⟨.ok (), .ok 0, fun a => if a = r.address then o else .err .other⟩
+        renderApiR (readReg tr Gen.enums Gen.fieldLists r)
+      | _, _ => "bad-op"
+    else if k = "CN" then
+      let toR := fun (s : String) => match s.splitOn ":" with
+        | ["ok", v] => some (v.toNat?.getD 0)
+        | _ => none
+      let tr : Transport := ⟨(if idx = "ok" then .ok () else .err .other),
+        (match toR outcome with | some v => .ok v | none => .err .other), fun _ => .err .other⟩
+      match connect tr Gen.products Gen.types fam with
+      | .ok (id, rl) => s!"ok:{id}:{fnv64 ((renderList rl).toUTF8.toList.map UInt8.toNat)}"
+      | .err e => "err:" ++ e.toString
+      | .panic => "PANIC"
+    else "bad-op"
+  | ["ST", hs, cancel, spec, mp] =>
+    match parseListSpec spec, parseMap mp with
+    | some rl, some m =>
+      let bits := parseBits hs
+      let h : Handlers := ⟨bits.getD 0 true, bits.getD 1 true, bits.getD 2 true, bits.getD 3 true⟩
+      let tr : Transport := ⟨.ok (), .ok 0, getOf m⟩
+      let (evs, res) := stream tr Gen.enums Gen.fieldLists cancel.toNat? rl h
+      let r := match res with | none => "ok" | some (e, n) => s!"err:{e.toString}@{n}"
+      let mp := (collect evs).mergeSort (fun a b => decide (a.1 ≤ b.1))
+      String.intercalate ";" (evs.map renderEv) ++ " -> " ++ r ++ " M=" ++
+        String.intercalate ";" (mp.map (fun p => s!"{p.1}={renderVal p.2}"))
+    | _, _ => "bad-op"
   | "RL" :: ops =>
     match ops.foldl (fun (acc : Option RegList) o => acc.bind (fun rl => regOp rl o)) (some {}) with
     | some rl => s!"{rl.len} {renderShort rl} {String.intercalate "," (rl.getRegisters.map short)}"
